@@ -75,7 +75,7 @@ def explore(repo="/repo", seed=1, n=3000, features="test-utils,metrics", timeout
     finally:
         if tmp:
             shutil.rmtree(tmp, ignore_errors=True)
-    out = {"ran": False, "explored": 0, "violating": [], "bound": "17 curated + %d seeded-random schedules (seed %d): <=5 client ops, capacity<=3, paused clock" % (n, seed)}
+    out = {"ran": False, "explored": 0, "violating": [], "bound": "19 curated + %d seeded-random schedules (seed %d): <=5 client ops, capacity<=3, paused clock" % (n, seed)}
     for line in p.stdout.splitlines():
         line = line.strip()
         if not line.startswith("{"):
